@@ -27,6 +27,8 @@ def enabled_actions(w, rnd):
                 acts.append({'a': 'CtlExpire', 'e': e, 'spi': tok(c.inbound_spi), 'hard': rnd.random() < 0.5})
             if sa.state == IkeSa.State.ESTABLISHED:
                 acts += [{'a': 'TrigRekeyIke', 's': t}, {'a': 'TrigDeleteIke', 's': t}, {'a': 'TrigDpd', 's': t}]
+            elif rnd.random() < 0.3:
+                acts.append({'a': 'TimerIdle', 's': t, 'which': rnd.choice(('rekeyike', 'delike', 'dpd'))})
             if sa.state.name in ikereplay.WAITING and sa.request is not None:
                 s = w.emitted.get(bytes(sa.request.to_bytes()))
                 if s is not None and jkey(s) not in w.net:
@@ -80,7 +82,7 @@ def record(sc, seed, depth):
     return events
 
 
-TRACE_SC = dict(ikemodel.BASE, MaxTrig=100000, MaxDup=100000, MaxLoss=100000, MaxAdv=0, MaxSpi=100000, StartEstablished=False, FreeRetx=True)
+TRACE_SC = dict(ikemodel.BASE, IdleTimers=True, MaxTrig=100000, MaxDup=100000, MaxLoss=100000, MaxAdv=0, MaxSpi=100000, StartEstablished=False, FreeRetx=True)
 
 
 CLAUSES = ('out', 'st', 'mid', 'kids', 'pending', 'kern', 'table', 'net', 'listed')
